@@ -393,4 +393,38 @@ theorem tail_counters (rc : RxCfg) (o : ObjCfg) : ∀ (es : List Ev) (st : OStat
       have := ih { st with completed := st.completed && l, age := ageStep st.age l } (by simp [hobj]) (by simpa [pktSyms] using hp)
       simpa using this
 
+/-- FDT instances completing before the object's first packet: still no object, nothing delivered -/
+theorem fdts_keep_none (rc : RxCfg) (o : ObjCfg) : ∀ (es : List Ev) (st : OState), st.obj = none → st.completed = false →
+    pktSyms es = [] →
+    (runObj c.canDecode rc o st es).obj = none ∧ (runObj c.canDecode rc o st es).completed = false ∧
+    (runObj c.canDecode rc o st es).completes = st.completes ∧ (runObj c.canDecode rc o st es).opens = st.opens ∧
+    (runObj c.canDecode rc o st es).errors = st.errors ∧ (runObj c.canDecode rc o st es).interrupts = st.interrupts := by
+  intro es
+  induction es with
+  | nil => intro st h1 h2 _; simp [runObj, h1, h2]
+  | cons e es ih =>
+    intro st hobj hc hp
+    cases e with
+    | pkt s => simp [pktSyms] at hp
+    | fdt l =>
+      unfold runObj
+      have : stepObj c.canDecode rc o st (.fdt l) = { st with completed := st.completed && l, age := ageStep st.age l } := by
+        simp only [stepObj, fdtEv, hobj]
+      rw [this]
+      have := ih { st with completed := st.completed && l, age := ageStep st.age l } (by simp [hobj]) (by simp [hc])
+        (by simpa [pktSyms] using hp)
+      simpa using this
+
+/-- the announcing FDT instance, after any FDT instances that do not concern the object -/
+theorem idle_after_announce (rc : RxCfg) (o : ObjCfg) (pre : List Ev) (hpre : pktSyms pre = []) :
+    Idle 0 (stepObj c.canDecode rc o (runObj c.canDecode rc o {} pre) (.fdt true)) := by
+  obtain ⟨h1, h2, h3, h4, h5, h6⟩ := fdts_keep_none c rc o pre {} rfl rfl hpre
+  have : stepObj c.canDecode rc o (runObj c.canDecode rc o {} pre) (.fdt true) =
+      { (runObj c.canDecode rc o {} pre) with
+          completed := (runObj c.canDecode rc o {} pre).completed && true,
+          age := ageStep (runObj c.canDecode rc o {} pre).age true } := by
+    simp only [stepObj, fdtEv, h1]
+  rw [this]
+  exact ⟨h1, by simpa using h3, by simpa using h4, by simpa using h5, by simpa using h6, by simp [ageStep], by simp [h2]⟩
+
 end Flute.Lemmas.Session
